@@ -326,6 +326,62 @@ Definition apply_twice (pfx : bstr) (pfs : list pfield) (sA sB : store V)
   let first := apply pfx sA pfs in
   (first, apply pfx sB pfs).
 
+(* ---- several structs: StoreConfig.Structs = [{v1, p1}; {v2, p2}; ...], or ParseFields on several values.
+   A parsed struct is (prefix, parsed fields).  Values of ONE struct type are different entries with the
+   same shape: each entry's fields are its own (the model has no per-type state to share; that the Go
+   code caches nothing per reflect.Type is carried by the correspondence run, mode "structs"). *)
+
+(* secretNames (store.go:872): the structs are parsed in order, the first parse error is returned *)
+Fixpoint parse_all (l : list (arg * bstr)) : perr + list (bstr * list pfield) :=
+  match l with
+  | [] => inr []
+  | (a, pfx) :: r =>
+    match parse_fields a with
+    | inl e => inl e
+    | inr pfs => match parse_all r with inl e => inl e | inr ps => inr ((pfx, pfs) :: ps) end
+    end
+  end.
+
+(* NewStore's loop (store.go:248-252): Apply struct after struct; the FIRST struct whose Apply reports an
+   error ends the loop - that error is returned, the structs after it are not touched (the failing struct
+   itself has been processed completely, Apply joins its errors).  Result: the store, the results of
+   the structs that were applied (in order), the requests, and the index of the failing struct if any *)
+Fixpoint apply_structs (s : store V) (l : list (bstr * list pfield))
+  : store V * list (list fres) * list name * option nat :=
+  match l with
+  | [] => (s, [], [], None)
+  | (pfx, pfs) :: r =>
+    let '(s1, frs, rq) := apply pfx s pfs in
+    match reported frs with
+    | [] => let '(s2, rest, rq2, e) := apply_structs s1 r in (s2, frs :: rest, rq ++ rq2, option_map S e)
+    | _ => (s1, [frs], rq, Some O)
+    end
+  end.
+
+Inductive nsmres :=
+| NMReject (e : perr)
+| NMBadNames
+| NMInitMissing (init_rq : list name)
+| NMDone (init_rq : list name) (s : store V) (frss : list (list fres)) (rq : list name) (failed : option nat).
+        (* failed = Some k: NewStore returns the error of struct k's Apply and NO store *)
+
+Definition new_store_structs (allow_lookup : bool) (extra : list name) (l : list (arg * bstr)) : nsmres :=
+  match parse_all l with
+  | inl e => NMReject e
+  | inr ps =>
+    let raw := extra ++ flat_map (fun '(pfx, pfs) => secrets_of pfx pfs) ps in
+    if negb (names_ok raw allow_lookup) then NMBadNames
+    else
+      let names := norm_names raw in
+      let mm := fst (declare (@nil (name * option (centry V))) names) in
+      let '(mm', missing) := init_round mm ans now_s in
+      match missing with
+      | S _ => NMInitMissing (stubs mm)
+      | O => let '(s', frss, rq, e) := apply_structs (ST mm' [] [] allow_lookup 0%Z) ps in
+             NMDone (stubs mm) s' frss rq e
+      end
+  end.
+
 End Apply.
 
 Arguments CUntouched {V D}.
@@ -335,5 +391,8 @@ Arguments CHandle {V D} n.
 Arguments CUnm {V D} v.
 Arguments CJson {V D} d.
 Arguments NSReject {V D} e.
+Arguments NMReject {V D} e.
+Arguments NMBadNames {V D}.
+Arguments NMInitMissing {V D} init_rq.
 Arguments NSBadNames {V D}.
 Arguments NSInitMissing {V D} init_rq.
